@@ -73,6 +73,12 @@ theorem hop_not_forwarded (wire rp : ReqM → ReqM) (hw : StdReqSpec wire) (hr :
     · exact e3
   exact hr.drops_hop _ k e2 hk
 
+/-- T1 (wiring the request-path model assumes): the agent forwards through a Director-mode
+    `httputil.NewSingleHostReverseProxy` — whose only header edits are the hop-by-hop removal
+    modelled in `ReqPath` — not through a `Rewrite`-mode proxy, which deletes the client's
+    `Forwarded` / `X-Forwarded-*` fields first. -/
+theorem agent_forwards_in_director_mode : agent_hostProxyIsDirectorMode = true := by decide
+
 -- non-vacuity
 example : server_isHopByHopHeader [84,69] = true ∧ server_isHopByHopHeader [67,111,111,107,105,101] = false := by decide
 example : server_filterRequestHeader [([85,112,103,114,97,100,101], [[104]]), ([88,45,65], [[49],[50]])] = [([88,45,65], [[49],[50]])] := by decide
